@@ -11,6 +11,10 @@ TRUST = ("trusted base: rustc's MIR dump of the current tree, the mirsym interpr
 
 # id -> (level text, note, design ref)
 CLAIMED = {
+    "C25": ("One block of <= N instructions (quick 2, thorough 3) over three frames: blocking / non-blocking / padded-template pulses, captures, raw captures, delays, fences, frame "
+            "updates, a gate with one of three calibrations or none, MOVE; qubits solver-chosen, dyadic durations: the real BasicBlock::as_schedule_seconds against a reference "
+            "(expansion, documented durations, start = latest end of an earlier conflicting instruction, a source instruction's span = hull of its expansion, duration = latest end); "
+            "an uncomputable schedule must be reported.", TRUST + "; DEFWAVEFORM / SAMPLE-RATE durations outside the claim", "5/C25"),
     "C13": ("All expression trees of depth <= D (quick 2, thorough 3) with enumerated node kinds and solver-chosen operators, functions, names, 64-bit indices and double literals, and "
             "every partial assignment (variables bound or not, regions absent / empty / non-empty, arbitrary doubles): the real evaluate, substitute_variables and memory_references: "
             "evaluate(substitute(e, s)) and evaluate(e, s) give the same verdict and bit-identical values; evaluation succeeds iff everything is supplied; the reported memory "
